@@ -125,6 +125,17 @@ func runC14(c *Check) {
 	for i, r := range Returns(isDup) {
 		k := fmt.Sprintf("return#%d", i)
 		for _, v := range Origins(r.Results[0]) {
+			if e, isE := v.(*ssa.Extract); isE && e.Index == 1 && e.Tuple == ssa.Value(lk) {
+				// the lookup's own `found` flag is the answer: right by construction; a new key must have been inserted by then
+				okIns := true
+				for _, ne := range notFound {
+					if ReachEdge(ne, NewCut().AddInstrs(up))[r] {
+						okIns = false
+					}
+				}
+				c.Report(okIns, P+".O1", "ANSWER-NEW-ONLY-AFTER-INSERT", isDup, r.Pos(), k, "the answer is the lookup's found flag, and on the not-found edge the key is inserted before returning")
+				continue
+			}
 			cst, ok := v.(*ssa.Const)
 			if !ok || cst.Value == nil {
 				c.Undecided(P+".O1", "ANSWER", isDup, r.Pos(), k, "the result is not a constant; cannot establish the found/not-found answer")
